@@ -59,6 +59,11 @@ func strConverter(dec *Decoder, o interface{}, p interface{}) {
 		*(*string)(reflect2.PtrOf(p)) = o
 	case *string:
 		*(*string)(reflect2.PtrOf(p)) = *o
+	case []byte:
+		// a string that is not UTF-8 travels as bytes: a reference to it restores the string
+		*(*string)(reflect2.PtrOf(p)) = string(o)
+	case *[]byte:
+		*(*string)(reflect2.PtrOf(p)) = string(*o)
 	case fmt.Stringer:
 		*(*string)(reflect2.PtrOf(p)) = o.String()
 	case fmt.GoStringer:
